@@ -119,8 +119,9 @@ def _work(arg):
                                 fsets = [[]]
                                 if crash is None and nerr:
                                     fsets.append([og.filter_patterns_for(lang, 0)])
-                                    if tier == 'thorough' and nmsg > 1:
+                                    if nmsg > 1 and nerr > 1:
                                         fsets.append([og.filter_patterns_for(lang, 0), og.filter_patterns_for(lang, 1)])
+                                        fsets.append([og.filter_patterns_for(lang, 1), og.filter_patterns_for(lang, 0)])
                                 for filters in fsets:
                                     n += 1
                                     if nerr:
